@@ -27,64 +27,71 @@ fi
 # a replay request ends here
 for a in "$@"; do [ "$a" = "--replay" ] && exit 0; done
 
-# ---- byte-level tier for the decoder / response properties
+# ---- byte-level tier: committed corpus replay (quick + thorough) and libFuzzer campaigns (thorough)
 case "$ID" in
-  C04) TARGET=login_response ;;
-  C10|C11|C12) TARGET=decoders ;;
+  C03) TARGETS="server_finish" ;;
+  C04) TARGETS="login_response" ;;
+  C08) TARGETS="server_start" ;;
+  C10|C11) TARGETS="decoders" ;;
+  C12) TARGETS="decoders server_start" ;;
   *) exit 0 ;;
 esac
 EV="$HERE/evidence/$ID.json"
 # (1) committed corpus (seeds + every minimised past failure) through the stable production-profile binary
-OUT="$(VERIF_FUZZ_PROPERTY=$ID "$VC" fuzz-replay --suite "$TARGET" --replay "$HERE/corpus/$TARGET" --verif-dir "$HERE")"
-frc=$?
-echo "$OUT" | grep -E "^(VIOLATION|FUZZ-REPLAY|INCONCLUSIVE)"
-NFILES=$(echo "$OUT" | sed -n 's/.*files=\([0-9]*\).*/\1/p' | tail -1)
+NFILES=0
+for TARGET in $TARGETS; do
+  OUT="$(VERIF_FUZZ_PROPERTY=$ID "$VC" fuzz-replay --suite "$TARGET" --replay "$HERE/corpus/$TARGET" --verif-dir "$HERE")"
+  frc=$?
+  echo "$OUT" | grep -E "^(VIOLATION|FUZZ-REPLAY|INCONCLUSIVE)"
+  n=$(echo "$OUT" | sed -n 's/.*files=\([0-9]*\).*/\1/p' | tail -1); NFILES=$((NFILES + ${n:-0}))
+  [ $frc -eq 0 ] || exit $frc
+done
 if [ -f "$EV" ]; then
-  jq --arg t "$TARGET" --argjson n "${NFILES:-0}" '.coverage.corpus_replay = {target: $t, files: $n, profile: "production (stable, release)"}' "$EV" > "$EV.tmp" && mv "$EV.tmp" "$EV"
+  jq --arg t "$TARGETS" --argjson n "$NFILES" '.coverage.corpus_replay = {targets: $t, files: $n, profile: "production (stable, release)"}' "$EV" > "$EV.tmp" && mv "$EV.tmp" "$EV"
 fi
-[ $frc -eq 0 ] || exit $frc
 [ "$TIER" = "thorough" ] || exit 0
 
-# (2) coverage-guided campaign (libFuzzer via cargo-fuzz, nightly), fixed work
+# (2) coverage-guided campaigns (libFuzzer via cargo-fuzz, nightly), fixed work
 RUNS="${VERIF_FUZZ_RUNS:-1000000}"; PROCS="${VERIF_FUZZ_PROCS:-8}"
-if ! cargo +nightly fuzz build --fuzz-dir "$HERE/fuzz" "$TARGET" >/tmp/vfuzz-build.$$ 2>&1; then
-  echo "INCONCLUSIVE property=$ID fuzz target $TARGET does not build (cargo +nightly fuzz); last lines:"; tail -n 15 /tmp/vfuzz-build.$$; rm -f /tmp/vfuzz-build.$$
+if ! cargo +nightly fuzz build --fuzz-dir "$HERE/fuzz" >/tmp/vfuzz-build.$$ 2>&1; then
+  echo "INCONCLUSIVE property=$ID the fuzz targets do not build (cargo +nightly fuzz); last lines:"; tail -n 15 /tmp/vfuzz-build.$$; rm -f /tmp/vfuzz-build.$$
   exit 2
 fi
 rm -f /tmp/vfuzz-build.$$
-BIN="$HERE/fuzz/target/x86_64-unknown-linux-gnu/release/$TARGET"
 WORK="$(mktemp -d /tmp/vfuzz.XXXXXX)"
 trap 'rm -rf "$WORK"' EXIT
-pids=""
-for i in $(seq 1 "$PROCS"); do
-  mkdir -p "$WORK/c$i" "$WORK/a$i"
-  cp "$HERE/corpus/$TARGET"/* "$WORK/c$i/" 2>/dev/null
-  ( "$BIN" "$WORK/c$i" -runs="$RUNS" -seed=$((SEED * 100 + i)) -max_len=1024 -len_control=0 -timeout=20 \
-      -artifact_prefix="$WORK/a$i/" -print_final_stats=1 >"$WORK/log$i" 2>&1 ) &
-  pids="$pids $!"
-done
-wait $pids
-EXECS=0
-for i in $(seq 1 "$PROCS"); do
-  n=$(sed -n 's/^stat::number_of_executed_units: \([0-9]*\)/\1/p' "$WORK/log$i" | tail -1); EXECS=$((EXECS + ${n:-0}))
-done
-viol=0; dbg_only=0
 mkdir -p "$HERE/replays"
-for f in "$WORK"/a*/*; do
-  [ -f "$f" ] || continue
-  # a crash counts only if it also fails on the production profile
-  if VERIF_FUZZ_PROPERTY=$ID "$VC" fuzz-replay --suite "$TARGET" --replay "$f" --verif-dir "$HERE" >/dev/null 2>&1; then
-    dbg_only=$((dbg_only + 1))
-  else
-    dst="$HERE/replays/$ID-fuzz-$(basename "$f")"; cp "$f" "$dst"
-    echo "VIOLATION property=$ID replay=$dst"; viol=$((viol + 1))
-  fi
+TOTAL=0; viol=0; other=0
+for TARGET in $TARGETS; do
+  BIN="$HERE/fuzz/target/x86_64-unknown-linux-gnu/release/$TARGET"
+  pids=""
+  for i in $(seq 1 "$PROCS"); do
+    mkdir -p "$WORK/$TARGET/c$i" "$WORK/$TARGET/a$i"
+    cp "$HERE/corpus/$TARGET"/* "$WORK/$TARGET/c$i/" 2>/dev/null
+    ( "$BIN" "$WORK/$TARGET/c$i" -runs="$RUNS" -seed=$((SEED * 100 + i)) -max_len=1024 -len_control=0 -timeout=20 \
+        -artifact_prefix="$WORK/$TARGET/a$i/" -print_final_stats=1 >"$WORK/$TARGET/log$i" 2>&1 ) &
+    pids="$pids $!"
+  done
+  wait $pids
+  for i in $(seq 1 "$PROCS"); do
+    n=$(sed -n 's/^stat::number_of_executed_units: \([0-9]*\)/\1/p' "$WORK/$TARGET/log$i" | tail -1); TOTAL=$((TOTAL + ${n:-0}))
+  done
+  for f in "$WORK/$TARGET"/a*/*; do
+    [ -f "$f" ] || continue
+    # a crash counts only if it also fails, for this property, on the production profile
+    if VERIF_FUZZ_PROPERTY=$ID "$VC" fuzz-replay --suite "$TARGET" --replay "$f" --verif-dir "$HERE" >/dev/null 2>&1; then
+      other=$((other + 1))
+    else
+      dst="$HERE/replays/$ID-fuzz-$TARGET-$(basename "$f")"; cp "$f" "$dst"
+      echo "VIOLATION property=$ID replay=$dst"; viol=$((viol + 1))
+    fi
+  done
 done
 if [ -f "$EV" ]; then
-  jq --arg t "$TARGET" --argjson e "$EXECS" --argjson p "$PROCS" --argjson r "$RUNS" --argjson v "$viol" --argjson d "$dbg_only" \
-     '.coverage.fuzz = {engine: "libFuzzer (cargo-fuzz, nightly)", target: $t, processes: $p, runs_per_process: $r, executions: $e, confirmed_violations: $v, crashes_not_reproduced_on_production_profile_or_other_property: $d} | .coverage.evaluations += $e' \
+  jq --arg t "$TARGETS" --argjson e "$TOTAL" --argjson p "$PROCS" --argjson r "$RUNS" --argjson v "$viol" --argjson d "$other" \
+     '.coverage.fuzz = {engine: "libFuzzer (cargo-fuzz, nightly)", targets: $t, processes_per_target: $p, runs_per_process: $r, executions: $e, confirmed_violations: $v, crashes_not_reproduced_on_production_profile_or_other_property: $d} | .coverage.evaluations += $e' \
      "$EV" > "$EV.tmp" && mv "$EV.tmp" "$EV"
 fi
-echo "FUZZ target=$TARGET processes=$PROCS executions=$EXECS confirmed_violations=$viol other_crashes=$dbg_only"
+echo "FUZZ targets=$TARGETS processes=$PROCS executions=$TOTAL confirmed_violations=$viol other_crashes=$other"
 [ $viol -eq 0 ] || exit 1
 exit 0
